@@ -152,6 +152,7 @@ pub fn ledger_alphabet(n: usize, diffs: &[u8], max_special: usize) -> Alphabet {
         BODY_COLLIDE,
         BODY_SPEND_OLD,
         BODY_MULTI,
+        BODY_ZEROS,
     ];
     a.max_special = max_special;
     a
